@@ -1519,13 +1519,14 @@ class AstEval:
 
     async def ast_annassign(self, arg):
         """Execute type hint assignment statement and track __annotations__."""
+        # python evaluates and assigns the value before it evaluates the annotation
+        if arg.value is not None:
+            rhs = await self.aeval(arg.value)
+            await self.recurse_assign(arg.target, rhs)
         if isinstance(arg.target, ast.Name):
             annotations = self.sym_table.setdefault("__annotations__", {})
             if arg.annotation:
                 annotations[arg.target.id] = await self.aeval(arg.annotation)
-        if arg.value is not None:
-            rhs = await self.aeval(arg.value)
-            await self.recurse_assign(arg.target, rhs)
 
     async def ast_namedexpr(self, arg):
         """Execute named expression."""
